@@ -82,6 +82,50 @@ class Analyzer:
         self.module_mutables[mod.relpath] = out
         return out
 
+    # -- class-level mutable objects (shared by every instance unless each constructor rebinds the name on self)
+    @staticmethod
+    def _is_mutable_value(val):
+        return isinstance(val, (ast.Dict, ast.List, ast.Set, ast.ListComp, ast.DictComp, ast.SetComp)) or \
+            (isinstance(val, ast.Call) and not (isinstance(val.func, ast.Name) and val.func.id in ("frozenset", "tuple", "float", "int", "str", "bool", "complex", "property", "staticmethod", "classmethod")))
+
+    def class_chain(self, mod, clsname):
+        out, todo = [], [clsname]
+        while todo:
+            c = todo.pop(0)
+            node = mod.classes.get(c)
+            if node is None or node in out:
+                continue
+            out.append(node)
+            for b in node.bases:
+                if isinstance(b, ast.Name):
+                    todo.append(b.id)
+        return out
+
+    def class_mutables(self, mod, clsname):
+        """{attr: owner class} for class-level names bound to mutable objects in clsname or its (same-module) bases that are NOT
+        rebound on self by the constructor(s) of the chain: such an object is shared by all instances (hidden state)"""
+        key = (mod.relpath, clsname)
+        cache = self.__dict__.setdefault("_class_mut", {})
+        if key in cache:
+            return cache[key]
+        chain = self.class_chain(mod, clsname)
+        muts, rebound = {}, set()
+        for node in chain:
+            for st in node.body:
+                if isinstance(st, ast.Assign) and self._is_mutable_value(st.value):
+                    for t in st.targets:
+                        if isinstance(t, ast.Name):
+                            muts.setdefault(t.id, node.name)
+                if isinstance(st, ast.FunctionDef) and st.name == "__init__":
+                    for n in ast.walk(st):
+                        if isinstance(n, (ast.Assign, ast.AnnAssign)):
+                            for t in (n.targets if isinstance(n, ast.Assign) else [n.target]):
+                                if isinstance(t, ast.Attribute) and isinstance(t.value, ast.Name) and t.value.id == "self":
+                                    rebound.add(t.attr)
+        out = {a: c for a, c in muts.items() if a not in rebound}
+        cache[key] = out
+        return out
+
     def summary(self, mod, qualname):
         key = (mod.relpath, qualname)
         if key in self.summaries:
@@ -268,6 +312,20 @@ class FuncAnalysis:
             return set()
         if isinstance(e, ast.Attribute):
             base = self.expr(e.value, env)
+            shared = None
+            if self.is_self(base) and self.is_method and ("self." + e.attr) not in env:
+                shared = self.an.class_mutables(self.mod, self.qualname.split(".")[0]).get(e.attr)
+            elif isinstance(e.value, ast.Name) and e.value.id in self.mod.classes and e.value.id not in env:
+                shared = self.an.class_mutables(self.mod, e.value.id).get(e.attr)
+            elif isinstance(e.value, ast.Attribute) and e.value.attr == "__class__" and self.is_method:
+                shared = self.an.class_mutables(self.mod, self.qualname.split(".")[0]).get(e.attr)
+            elif isinstance(e.value, ast.Call) and isinstance(e.value.func, ast.Name) and e.value.func.id == "type" and self.is_method:
+                shared = self.an.class_mutables(self.mod, self.qualname.split(".")[0]).get(e.attr)
+            if shared is not None:
+                what = "uses class-level mutable attribute %s.%s: one object shared by all instances (state kept between calls / objects)" % (shared, e.attr)
+                if not any(h.what == what for h in self.s.hidden):
+                    self.s.hidden.append(Event("hidden", self.fname, getattr(e, "lineno", 0), what, set()))
+                return {("G", "%s.%s" % (shared, e.attr))}
             if self.is_self(base):
                 return set(env.get("self." + e.attr, set())) | {("S", e.attr)}
             if e.attr in VIEW_ATTRS:
